@@ -5,6 +5,7 @@ pub mod graph;
 pub mod proto;
 pub mod storage;
 
+use color_eyre::{Report, Result};
 use ruint::aliases::U256;
 use std::collections::HashMap;
 use storage::deserialize_witnesscalc_graph;
@@ -17,7 +18,7 @@ pub type InputSignalsInfo = HashMap<String, (usize, usize)>;
 pub fn calc_witness<I: IntoIterator<Item = (String, Vec<Fr>)>>(
     inputs: I,
     graph_data: &[u8],
-) -> Vec<Fr> {
+) -> Result<Vec<Fr>> {
     let inputs: HashMap<String, Vec<U256>> = inputs
         .into_iter()
         .map(|(key, value)| (key, value.iter().map(fr_to_u256).collect()))
@@ -27,9 +28,9 @@ pub fn calc_witness<I: IntoIterator<Item = (String, Vec<Fr>)>>(
         deserialize_witnesscalc_graph(std::io::Cursor::new(graph_data)).unwrap();
 
     let mut inputs_buffer = get_inputs_buffer(get_inputs_size(&nodes));
-    populate_inputs(&inputs, &input_mapping, &mut inputs_buffer);
+    populate_inputs(&inputs, &input_mapping, &mut inputs_buffer)?;
 
-    graph::evaluate(&nodes, inputs_buffer.as_slice(), &signals)
+    Ok(graph::evaluate(&nodes, inputs_buffer.as_slice(), &signals))
 }
 
 fn get_inputs_size(nodes: &[Node]) -> usize {
@@ -52,17 +53,18 @@ fn populate_inputs(
     input_list: &HashMap<String, Vec<U256>>,
     inputs_info: &InputSignalsInfo,
     input_buffer: &mut [U256],
-) {
+) -> Result<()> {
     for (key, value) in input_list {
         let (offset, len) = inputs_info[key];
         if len != value.len() {
-            panic!("Invalid input length for {}", key);
+            return Err(Report::msg(format!("Invalid input length for {key}")));
         }
 
         for (i, v) in value.iter().enumerate() {
             input_buffer[offset + i] = *v;
         }
     }
+    Ok(())
 }
 
 /// Allocates inputs vec with position 0 set to 1
